@@ -72,7 +72,8 @@ Definition garg_with (f : term -> term -> option subs) (x y : term) : option sub
         match kx, ky with
         | [tx], [ey] =>
             match ty_param tx with
-            | Some p => if label_eqb ly (K "GConst" "") then Some (subs_ex p ey) else None
+            | Some p => if label_eqb ly (K "GConst" "") && is_expr_kind (tlabel ey)
+                        then Some (subs_ex p ey) else None
             | None => None
             end
         | _, _ => None
@@ -111,7 +112,9 @@ Definition sup_step (rec : term -> term -> option subs) (self : term -> option s
   | Some p => param_vs subs_ty p (ty_param b) b
   | None =>
   match ex_param a with
-  | Some p => param_vs subs_ex p (ex_param b) b
+  | Some p =>
+      (* `other` is an `Expr` in the code; on an ill-sorted tree the model answers None *)
+      if is_expr_kind lb then param_vs subs_ex p (ex_param b) b else None
   | None =>
   if is_kind "Lifetime" la then
     match ka, kb with
